@@ -205,12 +205,17 @@ pub fn templates(t: &mut Tape, fam: Fam) -> Vec<Vec<u8>> {
                 d.push(0);
                 d.push(*t.pick(DATA, &[255u8, 254, 128, 2, 1]));
                 let cols = *t.pick(DATA, &[50usize, 2_000, 16_000, 30_000]);
+                // distinct heads (a repeated head would share its column): base-26 numerals, shortest first
+                let distinct = t.draw(DATA, 4) != 0;
                 for i in 0 .. cols {
-                    if t.draw(DATA, 2) == 0 {
-                        d.push(b'a' + (i % 26) as u8);
-                    } else {
-                        d.push(b'a' + (i % 26) as u8);
-                        d.push(b'a' + ((i / 26) % 26) as u8);
+                    let mut n = if distinct { i } else { i % 40 };
+                    loop {
+                        d.push(b'a' + (n % 26) as u8);
+                        n /= 26;
+                        if n == 0 {
+                            break;
+                        }
+                        n -= 1;
                     }
                     d.push(0);
                     if d.len() > 65_000 {
@@ -775,6 +780,16 @@ pub fn index_games(t: &mut Tape, fam: Fam, items: &mut Vec<Vec<u8>>) {
                     d[14] = idx(t);
                     if t.draw(DATA, 2) == 0 {
                         d[15] = idx(t);
+                    }
+                    // the start offsets of the player / team field sections ("player_\0" <offset> items...)
+                    if t.draw(DATA, 2) == 0 {
+                        let at: Vec<usize> = (16 .. d.len().saturating_sub(2)).filter(|&i| d[i] == b'_' && d[i + 1] == 0).map(|i| i + 2).collect();
+                        let at_t: Vec<usize> = (16 .. d.len().saturating_sub(3)).filter(|&i| d[i] == b'_' && d[i + 1] == b't' && d[i + 2] == 0).map(|i| i + 3).collect();
+                        for i in at.into_iter().chain(at_t) {
+                            if i < d.len() && t.draw(DATA, 2) == 0 {
+                                d[i] = idx(t);
+                            }
+                        }
                     }
                 }
             }
